@@ -2,10 +2,6 @@
 from .common import *
 
 
-def apdu_of(command, data):
-    return bytes([0x80, command]) + data
-
-
 @contract("ledger/hsm2dongle.py", "HSM2Dongle._send_command",
           serves=["C01", "C03", "C04", "C05", "C09", "C10", "C11", "C13", "C15", "C17", "C18"])
 class SendCommand(Contract):
@@ -69,6 +65,12 @@ class SendDataInChunks(Contract):
                        and implies(expect_full_data, total_bytes_sent >= len(data))
                        and classify(g) == K_OK and response == g.last_resp and len(response) >= 3)
     invariants = {0: [inv_stream, inv_counters, inv_finished]}
+
+    # every APDU carries the chunk the device asked for: at most bytes_requested bytes, taken at `offset`
+    def chunk_is_what_was_requested(arg_data, operation, data, offset, bytes_requested):
+        return (len(arg_data) - 1 <= bytes_requested and arg_data[0] == operation
+                and arg_data[1:] == data[offset:offset + (len(arg_data) - 1)])
+    at_calls = {"_send_command": [chunk_is_what_was_requested]}
 
     # ---- postconditions
     def post_prefix(command, operation, data, g, old):
